@@ -188,7 +188,8 @@ class Column:
     (flat column: one entry per row).  value is the physical cell (int pattern / bytes / 0|1)."""
 
     def __init__(self, path, ptype, max_def, max_rep, entries, converted=None, type_length=0, logical=None,
-                 schema_nodes=None):
+                 schema_nodes=None, scale=None, precision=None):
+        self.scale, self.precision = scale, precision      # DECIMAL
         self.path, self.ptype, self.max_def, self.max_rep = path, ptype, max_def, max_rep
         self.entries, self.converted, self.type_length, self.logical = entries, converted, type_length, logical
         self.schema_nodes = schema_nodes      # for nested columns: explicit schema elements (list of dicts)
@@ -326,6 +327,8 @@ def write_file(path, columns, row_groups, choices, rng, created_by=b"specwriter 
             schema.append(("struct", [(1, ("i32", col.ptype)), (2, ("i32", col.type_length)) if col.type_length else (2, None),
                                       (3, ("i32", 1 if col.max_def else 0)), (4, ("bin", col.path[0])),
                                       (6, ("i32", col.converted)) if col.converted is not None else (6, None),
+                                      (7, ("i32", col.scale)) if col.scale is not None else (7, None),
+                                      (8, ("i32", col.precision)) if col.precision is not None else (8, None),
                                       (10, col.logical) if col.logical is not None else (10, None)]))
     fmd = [(1, ("i32", 1)), (2, ("list", 12, schema)), (3, ("i64", nrows)), (4, ("list", 12, rg_structs)),
            (5, ("list", 12, [("struct", [(1, ("bin", k)), (2, ("bin", v))]) for k, v in (kv or [])])) if kv else (5, None),
